@@ -6,6 +6,7 @@ package c06
 import (
 	"fmt"
 	"strings"
+	"sync"
 	"testing"
 
 	"github.com/crillab/gophersat/solver"
@@ -241,3 +242,104 @@ func TestReplay(t *testing.T) { vf.ReplayEnv(t) }
 
 // native fuzz targets (thorough tier): the fuzzer mutates the byte stream that rapid decodes into generator choices
 func FuzzCertSmall(f *testing.F) { vf.FuzzNamed(f, "C06", "small") }
+
+// ---- certified solvers at work side by side ------------------------------------------------------------
+
+// ParCase: G goroutines each solve Per random 3-SAT formulas (ratio 5.2: nearly all unsatisfiable) with certificate
+// generation on and a certificate channel of their own; the formulas are derived from Seed by a fixed generator.
+type ParCase struct {
+	G    int    `json:"g"`
+	Per  int    `json:"per"`
+	N    int    `json:"n"`
+	Seed uint64 `json:"seed"`
+}
+
+func denseFormula(n int, seed uint64) [][]int {
+	x := seed*0x9e3779b97f4a7c15 + 0x2545f4914f6cdd1d
+	next := func() uint64 {
+		x ^= x << 13
+		x ^= x >> 7
+		x ^= x << 17
+		return x
+	}
+	var cls [][]int
+	for len(cls) < n*52/10 {
+		var cl []int
+		for len(cl) < 3 {
+			v := int(next()%uint64(n)) + 1
+			dup := false
+			for _, l := range cl {
+				if l == v || l == -v {
+					dup = true
+				}
+			}
+			if dup {
+				continue
+			}
+			if next()&1 == 1 {
+				v = -v
+			}
+			cl = append(cl, v)
+		}
+		cls = append(cls, cl)
+	}
+	return cls
+}
+
+func checkPar(c ParCase, o *vf.Obs) error {
+	gs.Arm(0, 0)
+	errs := make([]error, c.G)
+	lines := make([]int, c.G)
+	var wg sync.WaitGroup
+	for g := 0; g < c.G; g++ {
+		wg.Add(1)
+		go func(g int) {
+			defer wg.Done()
+			errs[g] = vf.Safely(func() error {
+				for j := 0; j < c.Per; j++ {
+					seed := c.Seed + uint64(g*1000+j)
+					cls := denseFormula(c.N, seed)
+					res, err := gs.Solve(solver.New(solver.ParseSliceNb(oracle.CloneCNF(cls), c.N)), true, false)
+					if err != nil {
+						return fmt.Errorf("goroutine %d, formula %d (seed %d): malformed certificate line: %v", g, j, seed, err)
+					}
+					lines[g] += len(res.Cert)
+					switch res.Status {
+					case solver.Sat:
+						if i := oracle.ModelSatisfies(cls, res.Model); i >= 0 {
+							return fmt.Errorf("goroutine %d, formula %d (seed %d): the model violates clause %v", g, j, seed, cls[i])
+						}
+					case solver.Unsat:
+						if bad, refuted := oracle.CheckTrace(c.N, cls, res.Cert); bad >= 0 || !refuted {
+							return fmt.Errorf("goroutine %d, formula %d (seed %d, %d variables): the certificate is not a RUP refutation (first bad line index %d of %d, empty clause derivable=%v)", g, j, seed, c.N, bad, len(res.Cert), refuted)
+						}
+					default:
+						return fmt.Errorf("goroutine %d, formula %d: Solve = %v", g, j, res.Status)
+					}
+				}
+				return nil
+			})
+		}(g)
+	}
+	wg.Wait()
+	total := 0
+	for g := range errs {
+		if errs[g] != nil {
+			return fmt.Errorf("%d certified solvers at work side by side: %v", c.G, errs[g])
+		}
+		total += lines[g]
+	}
+	if total >= 50*c.G {
+		o.Nontrivial()
+	}
+	return nil
+}
+
+func genPar(t *rapid.T) ParCase {
+	return ParCase{G: rapid.SampledFrom([]int{2, 4, 8}).Draw(t, "g"), Per: rapid.IntRange(10, 40).Draw(t, "per"), N: gen.Uniform(t, 30, 60, "n"), Seed: rapid.Uint64().Draw(t, "seed")}
+}
+
+func init() {
+	vf.Register(vf.Sub[ParCase]{Name: "side-by-side", Quick: 8, Thorough: 60, Gen: genPar, Check: checkPar, Floor: 0.5,
+		Rule: "2..8 goroutines each solve 10..40 random 3-SAT formulas of their own (ratio 5.2 over 30..60 variables, derived from a drawn seed by a fixed generator) with certificate generation on and their own certificate channel: every Unsat answer must come with a RUP refutation of that goroutine's formula, every Sat answer with a valid model; non-trivial = >= 50 certificate lines per goroutine"})
+}
